@@ -9,15 +9,15 @@ for pid in sorted(os.listdir('/tmp')):
     m = re.match(r'out_(C\d+)$', pid)
     if not m: continue
     prop = m.group(1); src = '/tmp/' + pid
-    for k in (1, 2):
+    for k in (1, 2, 3):
         pf = os.path.join(src, 'patch%d.diff' % k)
         if not os.path.exists(pf): continue
         sid = '%s_patch%d' % (prop, k); d = os.path.join('/verif/seeded', sid); os.makedirs(d, exist_ok=True)
         shutil.copy(pf, os.path.join(d, 'patch.diff'))
-        for f in ('demo%d.cpp' % k, 'notes%d.md' % k):
-            if os.path.exists(os.path.join(src, f)): shutil.copy(os.path.join(src, f), os.path.join(d, 'demo.cpp' if f.startswith('demo') else 'notes.md'))
+        for f in ('demo%d.cpp' % k, 'demo%d.sh' % k, 'notes%d.md' % k):
+            if os.path.exists(os.path.join(src, f)): shutil.copy(os.path.join(src, f), os.path.join(d, ('demo.sh' if f.endswith('.sh') else 'demo.cpp') if f.startswith('demo') else 'notes.md'))
         det = DET.get(sid, {})
-        meta = {'breaks_property': prop, 'source': 'independent sub-agent given only the property text and its own scratch worktree of /repo (first batch: pinned commit c1698bc; C04/C07/C08/C10/C16: /repo HEAD with the fix: commits up to d2e4ad8), nothing from /verif',
+        meta = {'breaks_property': prop, 'source': 'independent sub-agent given only the property text and its own scratch worktree of /repo (first batch: pinned commit c1698bc; C04/C07/C08/C10/C16 and C02/C12/C14/C18/C19: /repo HEAD at the time, i.e. with the fix: commits up to d2e4ad8 resp. a64cd05), nothing from /verif',
                 'needs_to_manifest': det.get('needs', 'see notes'), 'files': sorted(os.listdir(d)),
                 'confirmation': ('by me in the agent worktree: ' + conf[prop]) if (k == 1 and prop in conf) else 'patch applies to /repo (git apply --check); demo and test-suite result as reported by the sub-agent (its scratch copy was deleted; the 15-minute rebuild was not repeated)',
                 'checks_run_against_it': det.get('ran', 'not run'), 'caught_by': det.get('caught_by', 'not run against the checks'), 'verdict': det.get('verdict', 'unknown')}
